@@ -9,7 +9,7 @@ from .common import *
 def main(tier, seed, replay=None):
     run = Run("C03", tier, seed, "proof")
     rng = random.Random(seed)
-    proof_obligations(run, "C03")
+    proof_obligations(run, "C03", extra_pins=("E2E",))
     binp = build_harness("dev")
     n = 60 if tier == "quick" else 1200
     cases = []
